@@ -22,7 +22,7 @@ TECHNIQUE = (
 )
 LEVEL_TEXT = (
     "Held on every generated stream and chunking: all 2^(n-1) chunkings of every enumerated short stream "
-    "(sequences of 1-4 tiny messages, <= 12 bytes; triples limited to <= 9 bytes in quick), single-byte / boundary-adversarial / random chunkings "
+    "(sequences of 1-4 tiny messages, <= 12 bytes; triples limited to <= 8 bytes in quick), single-byte / boundary-adversarial / random chunkings "
     "of generated sequences with body lengths across 12|13, 268|269, 65804|65805 and 70000, malformed / oversized frames at every "
     "position, every signalling code with elective and critical option sweeps, and end-to-end Release/Abort/Ping/empty scenarios on a real Context; "
     "says nothing about streams outside these generators."
@@ -43,9 +43,9 @@ ASSUMPTIONS = [
 ]
 REQUIRED_MONITORS = {
     "quick": {
-        "dispatch_equals_sent": 1000000, "exhaustive_chunkings": 1000000, "outgoing_bytes": 3000, "csm_gate": 50000, "abort_and_close": 100000,
+        "dispatch_equals_sent": 500000, "exhaustive_chunkings": 500000, "outgoing_bytes": 3000, "csm_gate": 50000, "abort_and_close": 100000,
         "oversize_abort": 8, "elective_sig_option_ignored": 10000, "critical_sig_option_abort": 10000, "ping_pong": 50000, "empty_ignored": 50000,
-        "release_abort_fail_pending": 1000, "e2e_server": 1000, "e2e_outgoing_request": 1000, "no_escape": 1000000, "own_csm": 2,
+        "release_abort_fail_pending": 1000, "e2e_server": 1000, "e2e_outgoing_request": 1000, "no_escape": 500000, "own_csm": 2,
     },
     "thorough": {
         "dispatch_equals_sent": 10000000, "exhaustive_chunkings": 10000000, "outgoing_bytes": 300000, "csm_gate": 1000000, "abort_and_close": 3000000,
@@ -54,7 +54,7 @@ REQUIRED_MONITORS = {
     },
 }
 EXHAUSTIVE = {
-    "chunkings_of_short_streams": "all 2^(n-1) chunkings of every enumerated stream: every sequence [x], [x,y], [CSM,x,y] of <= 12 bytes and every [x,y,z], [CSM,x,y,z] of <= 9 bytes (quick) / <= 12 bytes (thorough) over the 21-message alphabet short_alphabet(); both roles",
+    "chunkings_of_short_streams": "all 2^(n-1) chunkings of every enumerated stream: every sequence [x], [x,y], [CSM,x,y] of <= 12 bytes and every [x,y,z], [CSM,x,y,z] of <= 8 bytes (quick) / <= 12 bytes (thorough) over the 21-message alphabet short_alphabet(); both roles",
     "bad_frame_positions": "every malformed / oversized class at every position 0..len of a 4-message base sequence",
     "signalling_option_sweep": "codes 7.01-7.05 x option numbers {elective, critical} lists x value shapes",
 }
@@ -1017,7 +1017,7 @@ def short_streams(alpha, tier):
     seqs = [[x] for x in names]
     seqs += [[x, y] for x in names for y in names]
     seqs += [["csm", x, y] for x in names for y in names]
-    limit3 = 12 if tier == "thorough" else 9
+    limit3 = 12 if tier == "thorough" else 8
     tri = [[x, y, z] for x in names for y in names for z in names if x != "csm"]
     tri += [["csm", x, y, z] for x in names for y in names for z in names]
     out = []
